@@ -22,6 +22,12 @@ package quic
 //   FIN was already acknowledged and a later truncated probe moves outclosed back from "received" to "sent".
 //   The eventual-delivery assertions are vfAssertKF with kcond = finMismarked.
 //
+// Harnesses: VerifC19_transfer (windows larger than the data), VerifC19_window (stream window and write buffer bind),
+// VerifC19_connwin (connection window binds; loss may be declared at any time; lost datagrams may never arrive).
+//   seeded C19-B: outUnlockNoQueue `outunsent.min() < outmaxsent` -> `outunsent.max() < outmaxsent` (a stream with lost
+//     bytes AND never-sent bytes waits on queueData for connection credit that only the lost bytes can free)
+//     caught by VerifC19_connwin "eventual delivery"
+//
 // Sensitivity (sh mut.sh, caught by VerifC19_transfer):
 //   stream.go handleData: `b = b[newOff-off:]` -> `b = b[0:]`                 "Read returns the peer's bytes in order"
 //   stream.go ackOrLossData: `if fin {outclosed.ackOrLoss}` -> `if true {..}`  "Close returns nil only after ... FIN acknowledged"
@@ -29,12 +35,14 @@ package quic
 func init() {
 	vfRegister("VerifC19_transfer", VerifC19_transfer)
 	vfRegister("VerifC19_window", VerifC19_window)
+	vfRegister("VerifC19_connwin", VerifC19_connwin)
 }
 
 type c19pkt struct {
 	pnum      packetNumber
 	frames    []qsFrame
 	delivered bool
+	lost      bool // the sender was told that this packet is lost
 }
 
 type c19world struct {
@@ -47,8 +55,15 @@ type c19world struct {
 	acked    []bool
 	finAcked bool
 	ctl      bool // receiver->sender control frames (MAX_STREAM_DATA, MAX_DATA) are part of the menu
+	// other: the packet number space also carries traffic that is not materialised here (PING probes, ACKs, frames
+	// of other streams); one of those packets may have been acknowledged, so loss detection may declare the oldest
+	// packet in flight lost at any time, not only after a later packet of THIS stream was acknowledged.
+	other bool
+	// coverage: a packet was declared lost while the connection window was used up and flushed, never-sent bytes
+	// were waiting for it (the retransmission must not wait for connection-level credit)
+	sawLossAtConnLimit bool
 	// coverage flags
-	sawDup, sawReorder, sawLoss, sawRetrans, closeEarly bool
+	sawDup, sawReorder, sawLoss, sawRetrans, closeEarly, sawDrop bool
 	maxAcked packetNumber // largest acknowledged packet number, -1 = none
 	// finMismarked: the stream recorded its FIN as sent in a packet that carries no FIN (known finding
 	// C19-fin-marked-sent-on-truncated-frame); from then on the FIN may never be retransmitted.
@@ -76,6 +91,9 @@ func c19new(outmaxbuf, win, connwin int64) *c19world {
 	}
 	x.w.onFate = func(pnum packetNumber, fate packetFate) {
 		if fate != packetAcked {
+			if p := x.pkt(pnum); p != nil {
+				p.lost = true
+			}
 			return
 		}
 		p := x.pkt(pnum)
@@ -214,7 +232,7 @@ func (x *c19world) step(writes bool) {
 		}
 		// loss detection declares the oldest unacknowledged packets lost, and only packets sent before an
 		// acknowledged one (RFC 9002 6.1); it may be wrong about them (spurious loss)
-		if i == 0 && x.maxAcked > sp.num {
+		if i == 0 && (x.other || x.maxAcked > sp.num) {
 			menu = append(menu, alt{3, 2*i + 1})
 		}
 	}
@@ -245,6 +263,9 @@ func (x *c19world) step(writes bool) {
 	case 3:
 		if m.a&1 == 1 {
 			x.sawLoss = true
+			if s := x.sg.s; w.c.streams.outflow.avail() == 0 && len(s.outunsent) > 0 && s.outunsent.max() > s.outmaxsent {
+				x.sawLossAtConnLimit = true
+			}
 		}
 		w.do(qsAlt{qsOpFate, 0, m.a})
 	case 4:
@@ -273,10 +294,25 @@ func (x *c19world) finish(rounds int) {
 		x.closeEarly = true
 	}
 	big := len(w.avails) - 1
+	// Datagrams that the sender already wrote off as lost and that have not arrived yet: either the loss was spurious
+	// and they arrive late (stragglers), or the network really dropped them and they never arrive. Everything that
+	// is still in flight or sent from now on is delivered.
+	dropped := false
+	for _, p := range x.pkts {
+		if p.lost && !p.delivered {
+			dropped = true
+		}
+	}
+	if dropped && vfBool("stragglers-arrive") {
+		dropped = false
+	}
+	if dropped {
+		x.sawDrop = true
+	}
 	for i := 0; i < rounds; i++ {
 		x.emit(qsOpEmit, big)
 		for _, p := range x.pkts {
-			if !p.delivered {
+			if !p.delivered && !(dropped && p.lost) {
 				x.deliver(p)
 			}
 		}
@@ -332,6 +368,9 @@ func VerifC19_transfer() {
 	if x.closeEarly {
 		vfReach("close-nil-before-the-final-rounds")
 	}
+	if x.sawDrop {
+		vfReach("lost-datagram-never-arrives")
+	}
 	vfReach("end")
 }
 
@@ -362,6 +401,45 @@ func VerifC19_window() {
 	}
 	if len(x.sg.data) > 3 {
 		vfReach("more-than-the-initial-windows")
+	}
+	vfReach("end")
+}
+
+// VerifC19_connwin: the CONNECTION-level window is the binding limit: the receiver's connection buffer is 1 byte, so the
+// sender's MAX_DATA credit is used up after every new byte while flushed bytes wait behind it (stream window 4, write
+// buffer 3). Script: Write(2); Flush; then k free events as in VerifC19_window, under the wider fault model "other":
+// the oldest packet in flight may be declared lost at any time (an unrelated later packet was acknowledged).
+// Lost bytes must be retransmitted without new connection-level credit (RFC 9000 4.1: retransmissions do not
+// count against the limit), otherwise reader and writer wait for each other forever; the final rounds demand that
+// everything arrives, Close returns nil and the reader reaches io.EOF.
+func VerifC19_connwin() {
+	k := 5
+	if vfTier() > 0 {
+		k = 6
+	}
+	x := c19new(3, 4, 1)
+	x.ctl = true
+	x.other = true
+	w := x.w
+	w.avails = []int{20}
+	w.do(qsAlt{qsOpWrite, 0, 2})
+	w.do(qsAlt{qsOpFlush, 0, 0})
+	w.prune = true
+	for i := 0; i < k; i++ {
+		x.step(true)
+	}
+	x.finish(4 + len(x.sg.data)) // the window opens by one byte per round
+	if x.sawLoss {
+		vfReach("loss")
+	}
+	if x.sawLossAtConnLimit {
+		vfReach("loss-while-the-connection-window-is-used-up")
+	}
+	if x.sawDrop {
+		vfReach("lost-datagram-never-arrives")
+	}
+	if x.w.connMax > 1 {
+		vfReach("connection-window-extended-by-the-receiver")
 	}
 	vfReach("end")
 }
